@@ -172,8 +172,15 @@ def mkfs_argv(cfg, img, extra=()):
 
 def mkfs(cfg, img, workdir, clock=1500000000, rand_seed=1, extra=(), env=None, tag="mkfs", keep_log=False):
     """Create the device file and run the real mke2fs on it.  Returns the Result."""
-    with open(img, "wb") as f:
-        f.truncate(cfg["size_kib"] * 1024)
+    if cfg.get("initial") in ("poison", "random"):
+        # a device that is not zero-filled and is not discarded: what lazy initialisation leaves behind stays visible
+        from simcore import make_device, Rng as _R
+        make_device(img, cfg["size_kib"] * 1024, cfg["initial"], rng=_R(rand_seed))
+        cfg = dict(cfg)
+        cfg["extra_eopts"] = list(cfg.get("extra_eopts") or []) + ["nodiscard"]
+    else:
+        with open(img, "wb") as f:
+            f.truncate(cfg["size_kib"] * 1024)
     pl = Plan([img], None, clock=clock, rand_seed=rand_seed)
     return run_sim(mkfs_argv(cfg, img, extra), pl, workdir, tag=tag, env=env, keep_log=keep_log)
 
@@ -207,7 +214,7 @@ def gen_content(rng, size):
     return bytes(out[:size])
 
 
-def gen_population(rng, cfg, workdir, scale=1.0, big_dir=None, late_dirs=0):
+def gen_population(rng, cfg, workdir, scale=1.0, big_dir=None, late_dirs=0, deep_extents=False):
     """A debugfs -w script (list of command strings) that populates a fresh filesystem, plus the
     host files it reads.  Returns (commands, description)."""
     feats = set(cfg["features"])
@@ -304,6 +311,17 @@ def gen_population(rng, cfg, workdir, scale=1.0, big_dir=None, late_dirs=0):
                 cmds.append('mkdir "/bigdir/%s"' % nm)
             else:
                 cmds.append('write "%s" "/bigdir/%s"' % (empty, nm))
+    # a file whose extent tree has interior nodes: data blocks alternating with holes (debugfs write skips zero blocks)
+    if deep_extents and "extent" in feats and bs <= 2048 and cfg["size_kib"] >= 4096:
+        per_leaf = (bs - 12) // 12
+        nx = rng.range(4 * per_leaf + 10, 4 * per_leaf + rng.choice([40, 300, 900]))
+        nx = min(nx, int(cfg["size_kib"] * 1024 * 0.35) // bs)
+        blob = bytearray()
+        one = rng.bytes(64) * (bs // 64)
+        for k in range(nx):
+            blob += bytes([1 + k % 250]) + one[1:]
+            blob += b"\0" * bs
+        cmds.append('write "%s" "/deep_extents.bin"' % host(bytes(blob)))
     # directories (with a few children each) created last: with few inodes per group they land in high groups
     for k in range(late_dirs):
         d = "/late%d_%s" % (k, gen_name(rng, 10).replace('"', "x"))
@@ -375,7 +393,7 @@ def fsck_status_ok_for_repair(status):
 
 
 def build_world(rng, workdir, cfg=None, scale=1.0, big_dir=None, small=False, want=None, avoid=(), name="img",
-                rehash=None, late_dirs=0):
+                rehash=None, late_dirs=0, deep_extents=False):
     """mkfs + populate (+ optional e2fsck -fyD to index directories).  Returns dict or None when mke2fs
     rejected the configuration or population failed in a way that leaves nothing to test."""
     if cfg is None:
@@ -384,7 +402,7 @@ def build_world(rng, workdir, cfg=None, scale=1.0, big_dir=None, small=False, wa
     r = mkfs(cfg, img, workdir, rand_seed=rng.u64() >> 1)
     if r.status != 0 or r.san:
         return {"cfg": cfg, "img": img, "rejected": True, "mkfs": r}
-    cmds, desc = gen_population(rng, cfg, workdir, scale=scale, big_dir=big_dir, late_dirs=late_dirs)
+    cmds, desc = gen_population(rng, cfg, workdir, scale=scale, big_dir=big_dir, late_dirs=late_dirs, deep_extents=deep_extents)
     pr = debugfs_script(img, cmds, workdir, tag="pop", rand_seed=rng.u64() >> 1)
     if rehash is None:
         rehash = rng.chance(0.4)
